@@ -43,6 +43,7 @@ type Engine struct {
 	FuncStats  map[string]*FuncStat
 	Verbose    bool
 	inputVars  []NamedVal
+	methodIDs  map[string]int
 	dispatch   map[string]func(p *Path, fr *Frame, c *ssa.CallCommon, recv Value, args []Value, dst ssa.Value, pos token.Pos) []*Path
 }
 
@@ -203,6 +204,25 @@ func (e *Engine) LoadContracts(mirrorDir, trustedDir, specDir string) error {
 			return err
 		}
 	}
+	// method ids of logged interfaces are fixed up front (independent of call order)
+	var logs []string
+	for n := range e.cs.LogIfaces {
+		logs = append(logs, n)
+	}
+	sort.Strings(logs)
+	for _, n := range logs {
+		k := strings.Index(n, ".")
+		if k < 0 {
+			continue
+		}
+		if p := e.findPackage(nil, n[:k]); p != nil {
+			if tn, ok := p.Scope().Lookup(n[k+1:]).(*types.TypeName); ok {
+				if it, ok := tn.Type().Underlying().(*types.Interface); ok {
+					e.registerLogMethods(it)
+				}
+			}
+		}
+	}
 	return nil
 }
 
@@ -300,7 +320,7 @@ func (e *Engine) loadGlobal(st *State, g *ssa.Global) Value {
 	if e.inInit {
 		v = zeroOf(t)
 	} else {
-		v = freshOf("Glob:"+globKey(g), t, nil, true)
+		v = freshOf("Glob:"+globKey(g)+st.Epoch, t, nil, true)
 		st.assumeWF(v, t)
 	}
 	st.Globs[g] = v
